@@ -650,6 +650,37 @@ class Interp:
             res = c
         return self.pending + [dumps(res)]
 
+    def powi_facts(self):
+        """U mode: powi with a literal exponent 2 or 3 is the repeated IEEE product the unrolled code uses
+        (compiler-rt's __powidf2 performs exactly these multiplications: r = 1*x is exact, multiplication is
+        commutative bit for bit); exponent 1 is the identity, exponent 0 is 1.0"""
+        out = []
+        one = '#b0' + '01111111111' + '0' * 52
+        for args in sorted(set(self.apps.get('powi', []))):
+            x, n = args
+            lit = lit_bits(n) if isinstance(n, str) and n.startswith('#') else None
+            if lit is None:
+                m = __import__('re').fullmatch(r'\(_ bv(\d+) (\d+)\)', n)
+                if m:
+                    lit = bin(int(m.group(1)))[2:].zfill(int(m.group(2)))
+            if lit is None:
+                continue
+            e = int(lit, 2)
+            if lit[0] == '1':
+                e -= 1 << len(lit)
+            app = f'({UFPFX}powi {x} {n})'
+            if e in (2, 3):
+                self.uf('u.mul64', [BV(64), BV(64)], BV(64))
+                sq = f'(u.mul64 {x} {x})'
+                out.append(f'(assert (= {app} {sq if e == 2 else "(u.mul64 " + sq + " " + x + ")"}))')
+            elif e == 1:
+                out.append(f'(assert (= {app} {x}))')
+        return self.pending_decls() + out
+
+    def pending_decls(self):
+        p, self.pending = self.pending, []
+        return [l for l in p if l.startswith('(declare-fun')]
+
     def small_int_facts(self):
         """U mode: ground IEEE facts about the integers -32..32 as doubles (exact, computed here): their
         int->float conversion, the float->int conversion back, and their order against every float literal
@@ -707,6 +738,7 @@ class Interp:
         lines = []
         if self.mode == 'U':
             lines += self.small_int_facts()
+            lines += self.powi_facts()
         if self.mode == 'R' and UFPFX + 'in_f64' in self.funret:
             # R inputs are reals: none of them is the distinguished NaN value
             # and all lie in the finite f64 range
